@@ -20,7 +20,7 @@ PROJ = {
     "C03": (["BCAST", "SIGN", "SETDATA"], [0, 5, 6, 7, 8]),
     "C04": (["BCAST", "VBLOCK", "VPREBLOCK", "RECV"], [0, 5, 8, 9]),
     "C05": (["PBLOCK", "BCAST", "HEIGHT", "PREV", "VALS", "KEYPAIR", "TPB", "MAXTPB", "RECV"], [0, 1, 11, 14]),
-    "C07": (["BCAST", "PPREBLOCK", "PBLOCK", "NEWBLOCK", "NEWPREBLOCK", "SIGN", "SETDATA", "VPREBLOCK"], [6, 16]),
+    "C07": (["BCAST", "PPREBLOCK", "PBLOCK", "NEWBLOCK", "NEWPREBLOCK", "SIGN", "SETDATA", "VPREBLOCK"], [6, 11, 16]),
     "C08": (["BCAST", "TRESET", "TEXTEND", "PBLOCK", "RECV"], [0, 14]),
     "C09": (["BCAST", "TRESET", "RECV", "PBLOCK"], [0, 9, 10]),
     "C10": (["TRESET", "TEXTEND", "THEIGHT", "TVIEW"], [0, 11]),
@@ -49,6 +49,8 @@ def relevant(pid, dis, job):
             if dis["kind"] == "MISMATCH" or any(s in (0, 8, 9) for s in dis.get("sections", [])):
                 return True
         return False
+    if pid == "C05" and dis.get("kind") == "MISMATCH" and dis.get("op", "")[:2] in ("S ", "R ") and "TRESET" in dis.get("rest", []):
+        return True  # the first timer of a height is part of what a (re)initialisation takes afresh
     if pid == "C06" and dis.get("kind") == "MISMATCH" and dis.get("op", "")[:2] in ("S ", "R "):
         return True  # N, F, M and the primary follow from the validator list read at the (re)initialisation
     kinds, secs = PROJ[pid]
